@@ -1181,7 +1181,8 @@ fn block_or_stmt_to_asg_type(val: oq3_syntax::BlockOrStmt, context: &mut Context
     match val {
         oq3_syntax::BlockOrStmt::BlockExpr(body) => block_expr_to_asg_type(body, context),
         oq3_syntax::BlockOrStmt::Stmt(stmt) => {
-            asg::Block::new(vec![stmt_to_asg_stmt(stmt, context).unwrap()])
+            // Some statements, for example an annotation, are not translated to a statement.
+            asg::Block::new(stmt_to_asg_stmt(stmt, context).into_iter().collect())
         }
     }
 }
@@ -1399,12 +1400,15 @@ fn io_declaration_statement_to_asg_stmt(
     type_decl: &synast::IODeclarationStatement,
     context: &mut Context,
 ) -> asg::Stmt {
-    if type_decl.array_type().is_some() {
-        panic!("Array types are not supported yet in the ASG");
-    }
-    let scalar_type = type_decl.scalar_type().unwrap();
-    // Assume that input / ouput variables are not constant.
-    let typ = scalar_type_to_type(&scalar_type, false, context);
+    let typ = if type_decl.array_type().is_some() {
+        // Array types are not supported yet in the ASG.
+        context.insert_error(NotImplementedError, type_decl);
+        Type::ToDo
+    } else {
+        let scalar_type = type_decl.scalar_type().unwrap();
+        // Assume that input / ouput variables are not constant.
+        scalar_type_to_type(&scalar_type, false, context)
+    };
     let name_str = type_decl.name().unwrap().string();
     let symbol_id = context.new_binding(name_str.as_ref(), &typ, &type_decl.name().unwrap());
     if type_decl.input_token().is_some() {
